@@ -54,8 +54,17 @@ STRENGTHENED = {
     "C15-7": "C15: 'flapping_acker' fault class (acks from 4-8 goroutines, connection closed abruptly after 1-20 ms, hundreds of lives)",
     "C17-7": "C17: 'race_finish' step (two finishers queued behind a slow read of the same transaction, all pairings, three paths)",
     "C17-8": "C17: rare long-lived-server case (1000-1500 client lives that begin and vanish against one service instance, probes in between)",
+    "C11-9": "C11 corruption sub-check: fault region 'blocktail' (the last 28 bytes of a data or index block: restart offsets, restart count, checksum)",
+    "C20-9": "C20 manifest sub-check: assignments through the pointer GetConfig() hands out, followed by Save (an invalid configuration must be rejected before anything is written)",
     "C13-4": "C13: real Replica state machine with injected transient apply failures (error state -> recovery -> new stream)",
     "C15-4": "C15: primary with a pre-history (older log files in the directory) so that the ack path's retention pass has work to do",
+}
+
+# why a change is (still) not caught
+NOT_CAUGHT = {
+    "C19-10": "not a violation of C19 as stated: the change sits in the transaction buffer that the embedded transaction and the service's BatchWrite/TxPut share, so service and embedded results stay equal (both wrong; the check counts 'embedded differs from the model' as inconclusive, the embedded semantics being other properties' business). The same slip was seeded for C03 and C01 (C03-3, C01-7) and is caught there; C01 and C03 also catch this patch",
+    "C13-7": "needs an atomic multi-entry batch (transaction commit / batch write) pushed by the primary; primary transactions are excluded by construction while the open finding D18 stands (replication of transactions is broken on the unchanged tree already)",
+    "C15-8": "needs a multi-entry batch at the tail of a > 100 entry backlog, i.e. primary transactions: excluded by construction while D18 is open (flag primary_tx, also_excludes_in C15); no way to reach the unbounded loop without entries that share a sequence number",
 }
 
 rows = []
@@ -91,6 +100,8 @@ for d in sorted(glob.glob('/verif/seeded/*/')):
     if os.path.exists(fm):
         first_missed += 1
         note = 'missed at first; ' + STRENGTHENED.get(name, 'check strengthened')
+    if not ok and name in NOT_CAUGHT:
+        note = (note + '; ' if note else '') + NOT_CAUGHT[name]
     brk = m.get('breaks', '')[:150].replace('|', '/').replace('\n', ' ')
     res = ' '.join(det) + (f" `{sig}`" if sig and ok else '')
     rows.append(f"| {name} | {brk} | {res} | {note} |")
